@@ -68,7 +68,7 @@ StructAssemble(p) ==
 \* ------------------------------------------------------------------ gkinds
 \* every instruction kind, over two qubits and one expression
 Kinds(a, b, e) ==
-  { Gate("Z", <<>>, <<e>>, <<a, b>>), Gate("U", <<"DAGGER">>, <<e, EInt(1)>>, <<b>>),
+  { Gate("Z", <<>>, <<e>>, <<a, b>>), Gate("U", <<"DAGGER", "CONTROLLED">>, <<e, EInt(1)>>, <<b, a>>),
     Measure("", a, Some(MRef("ro", 1))), Measure("", b, None), ResetQ(<<a>>), ResetQ(<<>>),
     Delay(<<a, b>>, e), Fence(<<b, a>>), Pulse(<<a>>, "rf", e), Capture(<<b>>, "ro", e, MRef("ro", 1)),
     RawCapture(<<a>>, "ro", e, MRef("ro", 0)),
